@@ -129,7 +129,7 @@ def main():
                     # d of a row-delay event = new counter - old counter (capped events: any d that reaches the cap)
                     cnt = {}; lines = ["R %d" % x["cells"]]
                     for e in x["events"]:
-                        if e[0] == "C": lines.append("C")
+                        if e[0] == "C": lines.append("C"); cnt = {}       # every scan_module call clears the visit counters
                         elif e[0] == "O": lines.append("O %d" % e[1])
                         elif e[0] == "W": cnt[e[1]] = e[2]; lines.append("W %d %d" % (e[1], e[2]))
                         else:
